@@ -86,7 +86,7 @@ def _span_text(sp):
     return " ".join(" ".join(t["text"] for t in sp["text"]).split())
 
 
-def classify(diags, w, gen_file=None):
+def classify(diags, w, gen_file=None, verif_phase=False):
     """-> (failures, hard_errors). failure: dict(fn, label(s)|None, clause, kind, site, message, rendered)"""
     failures, hard = [], []
     for d in diags:
@@ -98,7 +98,7 @@ def classify(diags, w, gen_file=None):
         if any(m in msg for m in RLIMIT_MARKERS):
             hard.append({"kind": "rlimit", "message": msg, "rendered": d.get("rendered", "")})
             continue
-        if not msg.startswith(FAIL_PREFIXES):
+        if not msg.startswith(FAIL_PREFIXES) and not verif_phase:
             hard.append({"kind": "translation", "message": msg, "rendered": d.get("rendered", "")})
             continue
         clause = None
@@ -295,16 +295,23 @@ def run_unit(unit_path, repo=None, twin=True):
         res.update(status="undecided", reason="verus timeout after %ds" % VERUS_TIMEOUT)
         return res
     diags, raw = parse_diags(err)
-    failures, hard = classify(diags, w, gen)
-    if hard:
-        res.update(status="undecided", reason="%s: %s" % (hard[0]["kind"], hard[0]["message"]), hard=hard)
-        return res
     try:
         js = json.loads(out)
     except ValueError:
+        js = None
+    vr = (js or {}).get("verification-results", {})
+    # once Verus has reached the SMT phase (it counts verified / failed functions) every error
+    # diagnostic is a verification failure, whatever its wording (vstd uses custom messages such as
+    # "precondition not met: index in bounds for this access"); before that phase an error is a
+    # translation / type error and the unit is undecided
+    verif_phase = ((vr.get("verified") or 0) + (vr.get("errors") or 0)) > 0 and not vr.get("encountered-vir-error")
+    failures, hard = classify(diags, w, gen, verif_phase)
+    if hard:
+        res.update(status="undecided", reason="%s: %s" % (hard[0]["kind"], hard[0]["message"]), hard=hard)
+        return res
+    if js is None:
         res.update(status="undecided", reason="verus produced no JSON (exit %s): %s" % (rc, " | ".join(raw[:3])))
         return res
-    vr = js.get("verification-results", {})
     if vr.get("encountered-vir-error"):
         res.update(status="undecided", reason="verus vir error")
         return res
@@ -339,7 +346,7 @@ def run_unit(unit_path, repo=None, twin=True):
             res.update(status="undecided", reason="verus timeout on vacuity twin")
             return res
         dt, rawt = parse_diags(errt)
-        ft, hardt = classify(dt, wt, gent)
+        ft, hardt = classify(dt, wt, gent, _phase(outt))
         # an rlimit inside the twin (Verus re-running queries to collect several errors) is not a
         # verdict; what counts is that every function's probe is refuted below
         hardt = [h for h in hardt if h["kind"] != "rlimit"]
@@ -356,7 +363,7 @@ def run_unit(unit_path, repo=None, twin=True):
                 res.update(status="undecided", reason="verus timeout on vacuity twin")
                 return res
             dt, rawt = parse_diags(errt)
-            ft, hardt = classify(dt, wt, gent)
+            ft, hardt = classify(dt, wt, gent, _phase(outt))
             hardt = [h for h in hardt if h["kind"] != "rlimit"]
             if hardt:
                 res.update(status="undecided", reason="vacuity twin: %s: %s" % (hardt[0]["kind"], hardt[0]["message"]))
@@ -370,6 +377,14 @@ def run_unit(unit_path, repo=None, twin=True):
             return res
     res["wall_s"] = round(time.time() - t0, 2)
     return res
+
+
+def _phase(out):
+    try:
+        vr = json.loads(out).get("verification-results", {})
+    except ValueError:
+        return False
+    return ((vr.get("verified") or 0) + (vr.get("errors") or 0)) > 0 and not vr.get("encountered-vir-error")
 
 
 def rsitems_error():
